@@ -102,6 +102,9 @@ pub struct FixtureDatabase {
     /// Documents currently open in the editor (their cached text is the editor's buffer,
     /// which may differ from the file on disk, so it must never be evicted).
     pub(crate) open_documents: Arc<DashMap<PathBuf, ()>>,
+    /// One lock per file, held for the duration of an analysis of that file: a
+    /// notification and the workspace scan may both want to analyse it.
+    pub(crate) analysis_locks: Arc<DashMap<PathBuf, Arc<std::sync::Mutex<()>>>>,
     /// Cache of detected fixture cycles.
     /// Stores (definitions_version, cycles) to invalidate when definitions change.
     pub cycle_cache: Arc<DashMap<(), CycleCacheEntry>>,
@@ -147,6 +150,7 @@ impl FixtureDatabase {
             definitions_version: Arc::new(std::sync::atomic::AtomicU64::new(0)),
             scans_in_progress: Arc::new(std::sync::atomic::AtomicUsize::new(0)),
             open_documents: Arc::new(DashMap::new()),
+            analysis_locks: Arc::new(DashMap::new()),
             cycle_cache: Arc::new(DashMap::new()),
             available_fixtures_cache: Arc::new(DashMap::new()),
             imported_fixtures_cache: Arc::new(DashMap::new()),
@@ -308,6 +312,16 @@ impl FixtureDatabase {
             .and_then(|ws| file_path.strip_prefix(ws).ok())
             .unwrap_or(file_path);
         relevant.to_string_lossy().contains("site-packages")
+    }
+
+    /// The lock that serialises analyses of one file.
+    pub(crate) fn analysis_lock(&self, canonical_path: &Path) -> Arc<std::sync::Mutex<()>> {
+        Arc::clone(
+            self.analysis_locks
+                .entry(canonical_path.to_path_buf())
+                .or_default()
+                .value(),
+        )
     }
 
     /// Note that the editor has opened a document: from now on its cached text is the
